@@ -164,7 +164,9 @@ macro_rules! derive_family {
                     if x.0[..] != e[..] {
                         out.viol(Viol::new(pc.key("inner-limbs", "mismatch"), "public limb array is not a*R mod p", json!({"a": hexs(a)})));
                     }
-                    if T { 0: limbs::<4>(&e) } != *x {
+                    let mut y = T::ZERO;
+                    y.0 = limbs::<4>(&e);
+                    if y != *x {
                         out.viol(Viol::new(pc.key("inner-limbs", "mismatch"), "constructing from Montgomery limbs does not give the element", json!({"a": hexs(a)})));
                     }
                 }
@@ -321,7 +323,17 @@ fn jubjub_fr(cx: &mut Ctx) {
     ops.push(prime::ord_case(&pc));
     ops.push(bits_case(&pc));
     ref_ops!(pc, ops, Fr);
-    inherent_arith!(pc, ops, Fr);
+    ops.push(prime::bin(
+        &pc,
+        "inherent-arith",
+        vec![("add", Box::new(|a: &Fr, b: &Fr| Fr::add(a, b))), ("sub+2b", Box::new(|a: &Fr, b: &Fr| Fr::add(&Fr::add(&Fr::sub(*a, b), b), b)))],
+        |m, a, b| m.add(a, b),
+    ));
+    ops.push(prime::bin(&pc, "inherent-sub", vec![("sub", Box::new(|a: &Fr, b: &Fr| Fr::sub(*a, b)))], |m, a, b| m.sub(a, b)));
+    ops.push(prime::bin(&pc, "inherent-mul", vec![("mul", Box::new(|a: &Fr, b: &Fr| Fr::mul(*a, b)))], |m, a, b| m.mul(a, b)));
+    ops.push(prime::un(&pc, "inherent-neg", |a: &Fr| Fr::neg(a), |m, a| m.neg(a)));
+    ops.push(prime::un(&pc, "inherent-square", |a: &Fr| Fr::square(a), |m, a| m.sqr(a)));
+    ops.push(prime::un(&pc, "inherent-double", |a: &Fr| Fr::double(a), |m, a| m.add(a, a)));
     ops.push(prime::bin(&pc, "inherent-ref-arith", vec![("mul_ref", Box::new(|a: &Fr, b: &Fr| a.mul_ref(b)))], |m, a, b| m.mul(a, b)));
     ops.push(prime::bin(&pc, "inherent-sub_ref", vec![("sub_ref", Box::new(|a: &Fr, b: &Fr| a.sub_ref(b)))], |m, a, b| m.sub(a, b)));
     ops.push(prime::from_limbs(&pc, "from_raw", |l| Fr::from_raw(limbs::<4>(l))));
@@ -494,7 +506,6 @@ fn c25519_scalar(cx: &mut Ctx) {
     use midnight_curves::curve25519::Scalar;
     let Some(pc) = PCtx::<Scalar>::new(cx, "curve25519-Scalar", C25519_L, false) else { return };
     let mut ops = prime::generic_ops(&pc);
-    ops.push(bits_case(&pc));
     ref_ops!(pc, ops, Scalar);
     ops.push(prime::encoder(&pc, "to_bytes", false, |x| x.to_bytes().to_vec()));
     ops.push(prime::encoder(&pc, "as_bytes", false, |x| x.as_bytes().to_vec()));
@@ -527,7 +538,7 @@ pub fn run_ff_ext(cx: &mut Ctx) {
         ("composite-3*5*7*(2^127-1)", bu(105) * (pow2(127) - 1u32), 4),
         ("composite-(2^61-1)^2*9", (pow2(61) - 1u32) * (pow2(61) - 1u32) * 9u32, 4),
         ("small-15", bu(15), 4),
-        ("one", bu(1), 4),
+        ("small-9", bu(9), 4),
     ];
     let mut cases: Cases = vec![];
     for (mn, n, nl) in mods {
@@ -540,8 +551,8 @@ pub fn run_ff_ext(cx: &mut Ctx) {
                 let n = &n2;
                 let f = Fp::new(n.clone());
                 let mut rng = vcore::rng_for(seed, &format!("c10-jacobi-{mn}"));
-                let mut alpha: Vec<BigUint> = f.alphabet(if thorough { 16 } else { 4 }, &mut rng).into_iter().map(|x| x.1).collect();
-                alpha.extend((0u32..40).map(bu).map(|x| x % n));
+                let mut alpha: Vec<BigUint> = if n.bits() > 128 { f.alphabet(if thorough { 16 } else { 4 }, &mut rng).into_iter().map(|x| x.1).collect() } else { vec![] };
+                alpha.extend((0u64..40).map(bu).map(|x| x % n));
                 let to_limbs = |v: &BigUint| -> Vec<u64> { to_le(v, nl * 8).chunks(8).map(|c| u64::from_le_bytes(c.try_into().unwrap())).collect() };
                 let dl = to_limbs(n);
                 let mut panics = 0u32;
@@ -588,7 +599,7 @@ pub fn run_ff_ext(cx: &mut Ctx) {
                 let f = Fp::new(n.clone());
                 let mut rng = vcore::rng_for(seed, &format!("c10-byinv-{mn}"));
                 let mut alpha: Vec<BigUint> = f.alphabet(if thorough { 16 } else { 4 }, &mut rng).into_iter().map(|x| x.1).collect();
-                alpha.extend((0u32..40).map(bu).map(|x| x % &n));
+                alpha.extend((0u64..40).map(bu).map(|x| x % &n));
                 let to_limbs = |v: &BigUint| -> Vec<u64> { to_le(v, nl * 8).chunks(8).map(|c| u64::from_le_bytes(c.try_into().unwrap())).collect() };
                 let ml = to_limbs(&n);
                 let one = to_limbs(&bu(1));
